@@ -2,6 +2,7 @@
 scheduler), running, history checking (hist.py), replay files."""
 import os
 import random
+import tempfile
 import subprocess
 
 import hist
@@ -203,8 +204,195 @@ def make_overwrite_workload(seed):
     return "\n".join(lines) + "\n", pre, {"shape": shape, "threads": nthreads, "kind": "overwrite"}
 
 
+def make_scanedge_workload(seed):
+    """scans (forward, size-limited, right-to-left) against writers that empty and unlink the border
+    node at the edge the scan starts from, split or empty a next-layer root the scan descends into,
+    or refill a node that has just been emptied"""
+    r = random.Random("scanedge/%d" % seed)
+    scen = r.choice(["right_edge", "right_edge", "left_edge", "middle", "layer_root_split", "layer_root_delete",
+                     "layer_drain", "refill", "absorb", "absorb"])
+    lines = ["storage 61", "bg 0"]
+    pre = {}
+    pfx = b"prefix__"
+    if scen in ("right_edge", "left_edge", "middle", "refill", "absorb"):
+        n = r.choice([16, 32, 48])
+        keys = [b"k%02d" % i for i in range(n)]
+        keep = set(r.sample(range(8), r.choice([1, 1, 2])))
+        for k in keys:
+            lines.append("pre put %s %s" % (hx(k), hx(b"p" + k[-3:])))
+        for i, k in enumerate(keys):
+            if i % 8 in keep:
+                pre[k] = (b"p" + k[-3:]).hex()
+            else:
+                lines.append("pre remove %s" % hx(k))
+        live = sorted(pre)
+        per = len(keep)
+        if scen in ("right_edge", "refill"):
+            victims = live[-per:] + (live[-2 * per:-per] if r.random() < 0.3 else [])
+        elif scen == "left_edge":
+            victims = live[:per] + (live[per:2 * per] if r.random() < 0.3 else [])
+        else:
+            b = r.randrange(1, max(2, len(live) // per - 1))
+            victims = live[b * per:(b + 1) * per]
+        fresh = [v + b"x" for v in victims] + [b"k99", b"k000"]
+        if scen == "absorb":
+            # a border left of the scanner is emptied and unlinked; its key range falls to the right
+            # neighbour, which then receives keys smaller than what the scan has already returned
+            b = r.randrange(0, max(1, len(live) // per - 1))
+            victims = live[b * per:(b + 1) * per]
+            fresh = [victims[0][:-1] + bytes([victims[0][-1] - 1]) + b"y", victims[0] + b"y", victims[-1] + b"z"]
+    else:
+        nsub = {"layer_root_split": 15, "layer_root_delete": 1, "layer_drain": r.choice([2, 16, 20])}[scen]
+        keys = [b"a", b"z"] + [pfx + b"s%02d" % i for i in range(nsub)]
+        if r.random() < 0.5:
+            keys += [b"prefix_2" + b"only"]
+        if r.random() < 0.3:
+            keys += [pfx]
+        for k in keys:
+            lines.append("pre put %s %s" % (hx(k), hx(b"p" + k[-3:])))
+            pre[k] = (b"p" + k[-3:]).hex()
+        live = sorted(pre)
+        sub = [k for k in live if len(k) > 8 and k.startswith(pfx)]
+        victims = sub if scen != "layer_root_split" else r.sample(sub, 2)
+        fresh = [pfx + b"s99", pfx + b"s07x", pfx + b"s000", pfx + b"t", b"prefix_2only"]
+    nthreads = r.choice([2, 3, 3, 4])
+    order = list(victims)
+    if r.random() < 0.5:
+        order.reverse()
+    for t in range(nthreads):
+        lines.append("thread %d" % t)
+        if t == 0:
+            for i in range(r.choice([1, 2, 2])):
+                x = r.random()
+                if scen in ("layer_root_split", "layer_root_delete", "layer_drain") and r.random() < 0.4:
+                    lk, le, rk, re_ = pfx, "I", pfx + b"\xff", "I"
+                else:
+                    lk, le, rk, re_ = b"", "F", b"", "F"
+                if x < 0.4:
+                    lines.append("op scan %s %s %s F 1 1" % (hx(lk), le, hx(rk)))
+                elif x < 0.55:
+                    lines.append("op scan %s %s %s %s %d 0" % (hx(lk), le, hx(rk), re_, r.choice([1, 2])))
+                else:
+                    lines.append("op scan %s %s %s %s 0 0" % (hx(lk), le, hx(rk), re_))
+        elif t == 1 and scen != "layer_root_split":
+            for k in order:
+                lines.append("op remove %s" % hx(k))
+            if scen in ("refill", "absorb"):
+                for k in r.sample(fresh, 2):
+                    lines.append("op put %s %s 0" % (hx(k), hx(b"%dr" % t)))
+        else:
+            for i in range(r.choice([1, 2, 3])):
+                x = r.random()
+                if x < 0.6 or scen == "layer_root_split":
+                    lines.append("op put %s %s 0" % (hx(r.choice(fresh)), hx(b"%dx%d" % (t, i))))
+                elif x < 0.8:
+                    lines.append("op remove %s" % hx(r.choice(victims)))
+                else:
+                    lines.append("op get %s" % hx(r.choice(live)))
+    return "\n".join(lines) + "\n", pre, {"shape": "scanedge/" + scen, "threads": nthreads, "kind": "scanedge"}
+
+
+def make_collapse_workload(seed):
+    """two (or three) sibling borders under one interior node are emptied at the same time, so that
+    the interior node collapses and hands the root role to a sibling that is itself being deleted;
+    afterwards the surviving node is refilled and emptied again"""
+    r = random.Random("collapse/%d" % seed)
+    pfx = r.choice([b"", b"", b"prefix__"])
+    n = r.choice([16, 16, 24])
+    keys = [pfx + b"k%02d" % i for i in range(n)]
+    lines = ["storage 61", "bg 0"]
+    pre = {}
+    if pfx:
+        lines.append("pre put %s %s" % (hx(b"a"), hx(b"pa")))
+        pre[b"a"] = b"pa".hex()
+    for k in keys:
+        lines.append("pre put %s %s" % (hx(k), hx(b"p" + k[-3:])))
+    keep = set(r.sample(range(8), r.choice([1, 1, 2])))
+    for i, k in enumerate(keys):
+        if i % 8 in keep:
+            pre[k] = (b"p" + k[-3:]).hex()
+        else:
+            lines.append("pre remove %s" % hx(k))
+    live = sorted(k for k in pre if k != b"a")
+    per = len(keep)
+    groups = [live[i:i + per] for i in range(0, len(live), per)]
+    nthreads = r.choice([2, 2, 3, 3])
+    busy_sibling = r.random() < 0.4     # one sibling is emptied while the other one only receives writes
+    for t in range(nthreads):
+        lines.append("thread %d" % t)
+        if busy_sibling and t == 1 and len(groups) > 1:
+            g = groups[1]
+            for i in range(r.choice([2, 3, 4])):
+                x = r.random()
+                if x < 0.4:
+                    lines.append("op put %s %s 0" % (hx(g[0]), hx(b"%dw%d" % (t, i))))
+                elif x < 0.8:
+                    lines.append("op put %s %s 0" % (hx(g[0] + b"w%d" % (i % 2)), hx(b"%dn%d" % (t, i))))
+                else:
+                    lines.append("op remove %s" % hx(g[0] + b"w%d" % (i % 2)))
+        elif t < len(groups) and t < 2 or (t < len(groups) and r.random() < 0.5):
+            g = list(groups[t])
+            if r.random() < 0.5:
+                g.reverse()
+            for k in g:
+                lines.append("op remove %s" % hx(k))
+            for rep in range(r.choice([0, 1, 1, 2])):
+                k = pfx + b"k%02dx%d" % (r.randrange(n), t)
+                lines.append("op put %s %s 0" % (hx(k), hx(b"%dv%d" % (t, rep))))
+                if r.random() < 0.8:
+                    lines.append("op remove %s" % hx(k))
+        else:
+            for i in range(r.choice([1, 2, 3])):
+                x = r.random()
+                k = pfx + b"k%02d" % r.randrange(n)
+                if x < 0.4:
+                    lines.append("op put %s %s 0" % (hx(k + b"y"), hx(b"%dy%d" % (t, i))))
+                elif x < 0.6:
+                    lines.append("op remove %s" % hx(k + b"y"))
+                elif x < 0.8:
+                    lines.append("op get %s" % hx(r.choice(live)))
+                else:
+                    lines.append("op scan - F - F 0 0")
+    return "\n".join(lines) + "\n", pre, {"shape": "collapse", "threads": nthreads, "kind": "collapse"}
+
+
+def make_version_workload(seed):
+    """threads using one node_version64 through its public operations: writers (lock, flag, unlock),
+    stable-version readers, and non-owners that flip the root / border flags; the initial word puts
+    the counters at and next to the 2^29 wrap boundary"""
+    r = random.Random("version/%d" % seed)
+    top = (1 << 29) - 1
+    vi = r.choice([0, 1, 12345, top - 1, top, top])
+    vs = r.choice([0, 7, top - 1, top, top])
+    word = vi | (vs << 32) | (r.getrandbits(1) << 61) | (r.getrandbits(1) << 62) | (r.getrandbits(1) << 63)
+    lines = ["storage 61", "bg 0", "rawver %016x" % word]
+    nthreads = r.choice([2, 3, 3, 4])
+    for t in range(nthreads):
+        lines.append("thread %d" % t)
+        role = "writer" if t == 0 else r.choice(["writer", "reader", "reader", "flagger"] if t > 1 else ["reader", "writer"])
+        if role == "flagger" and t != nthreads - 1:
+            role = "reader"
+        for i in range(r.choice([1, 2, 3])):
+            if role == "writer":
+                fl = r.choice(["", "i", "s", "is", "i", "n", "in"])
+                if t == 0 and r.random() < 0.4:
+                    fl += r.choice("dD")
+                lines.append("op vcs %s" % fl if fl else "op vcs")
+            elif role == "reader":
+                lines.append("op vstable")
+            else:
+                lines.append(r.choice(["op vroot 1", "op vroot 0", "op vborder 1", "op vborder 0"]))
+    return "\n".join(lines) + "\n", {}, {"shape": "version", "threads": nthreads, "kind": "version"}
+
+
 def make_workload(seed, kind, shape=None):
     """returns (text, pre dict, meta)"""
+    if kind == "version":
+        return make_version_workload(seed)
+    if kind == "collapse":
+        return make_collapse_workload(seed)
+    if kind == "scanedge":
+        return make_scanedge_workload(seed)
     if kind == "overwrite":
         return make_overwrite_workload(seed)
     if kind == "storage":
@@ -265,6 +453,9 @@ def make_workload(seed, kind, shape=None):
                 if kind == "nodeset":
                     # fresh keys only, inserted once: next to existing keys
                     k = r.choice(live if live else [b"k"]) + b"n%d%d" % (t, i)
+                    if r.random() < 0.35:
+                        # a short fresh key: lands in the root border even when everything else lives in sub-layers
+                        k = r.choice([b"a", b"m", b"prefix_", b"pz", b"z", b""]) + b"%d%d" % (t, i)
                     lines.append("op put %s %s 0" % (hx(k), hx(val)))
                 elif kind == "split":
                     # inserts that split / removes that empty nodes
@@ -310,9 +501,9 @@ def make_workload(seed, kind, shape=None):
     return "\n".join(lines) + "\n", pre, {"shape": shape, "threads": nthreads, "kind": kind}
 
 
-def run_workload(binary, text, runs, seed, policy="random", trace=False, timeout=300):
-    path = os.path.join(WL_DIR, "w_%d_%d.txt" % (os.getpid(), abs(hash(text)) % 10 ** 9))
-    with open(path, "w") as f:
+def run_workload(binary, text, runs, seed, policy="random", trace=False, timeout=120):
+    fd, path = tempfile.mkstemp(prefix="w_", suffix=".txt", dir=WL_DIR)   # unique even for identical texts
+    with os.fdopen(fd, "w") as f:
         f.write(text)
     cmd = [binary, path, str(runs), str(seed), policy] + (["trace"] if trace else [])
     try:
